@@ -21,6 +21,7 @@ import (
 	"encoding/binary"
 	"fmt"
 	"io"
+	"math"
 	"sort"
 	"sync"
 	"sync/atomic"
@@ -671,12 +672,12 @@ func (i *Snapshot) readSegmentSnapshot(br *bufio.Reader) (bytesRead int64, ss *s
 	bytesRead += int64(sz)
 
 	if delLen > 0 {
-		deletedBytes := make([]byte, int(delLen))
-		sz, err = io.ReadFull(br, deletedBytes)
+		var deletedBytes []byte
+		deletedBytes, err = readBytes(br, delLen)
 		if err != nil {
 			return bytesRead, nil, fmt.Errorf("error reading snapshot %d: %w", i.epoch, err)
 		}
-		bytesRead += int64(sz)
+		bytesRead += int64(len(deletedBytes))
 
 		rr := bytes.NewReader(deletedBytes)
 		deletedBitmap := roaring.NewBitmap()
@@ -704,13 +705,30 @@ func readVarLenString(r *bufio.Reader) (n int, str string, err error) {
 	}
 	n += sz
 
-	strBytes := make([]byte, strLen)
-	sz, err = io.ReadFull(r, strBytes)
+	strBytes, err := readBytes(r, strLen)
 	if err != nil {
 		return n, "", err
 	}
-	n += sz
+	n += len(strBytes)
 	return n, string(strBytes), nil
+}
+
+// readBytes reads exactly length bytes from r. The buffer grows with the
+// bytes that are really there, so a damaged length field cannot force an
+// allocation out of proportion to the input (or a panic in make).
+func readBytes(r io.Reader, length uint64) ([]byte, error) {
+	if length > math.MaxInt32 {
+		return nil, fmt.Errorf("implausible length %d", length)
+	}
+	var buf bytes.Buffer
+	_, err := io.CopyN(&buf, r, int64(length))
+	if err != nil {
+		if err == io.EOF {
+			err = io.ErrUnexpectedEOF
+		}
+		return nil, err
+	}
+	return buf.Bytes(), nil
 }
 
 func (i *Snapshot) DocumentValueReader(fields []string) (
